@@ -75,6 +75,19 @@ Follow(s) ==
 
 AnyStep == (IsEvent("Any") \/ IsEvent("Reset")) /\ Follow(Ev.state) /\ diag' = <<>>
 
+(* the rehash command schedules the hash migration: it marks the stripes and keeps the books as they are - the time of the last
+   check, the bad mark and the "never scrubbed since its sync" flag of every stripe (scrub -p new and the age plans read them) *)
+BooksKept(old, new) == /\ Len(old.info) = Len(new.info)
+                       /\ \A q \in 1..Len(old.info) :
+                             /\ old.info[q].p = new.info[q].p
+                             /\ old.info[q].p => /\ old.info[q].t = new.info[q].t
+                                                 /\ old.info[q].bad = new.info[q].bad
+                                                 /\ old.info[q].js = new.info[q].js
+RehashStep == /\ IsEvent("Rehash")
+              /\ Follow(Ev.state)
+              /\ diag' = IF Ev.out.rc = 0 /\ ~BooksKept(C, LoggedC(Ev.state))
+                         THEN <<"Rehash", l, "the rehash command changed the books (time / bad / never-scrubbed flag of a stripe)">> ELSE <<>>
+
 (***************************************************************************)
 (* Ground truth about one stripe, independent of the model of scrub.       *)
 (***************************************************************************)
@@ -141,7 +154,7 @@ ScrubStep ==
                             [observed |-> obs, transcribed |-> pred, limits |-> lim, logged_limits |-> Ev.obs.limits],
                             IF ~okC THEN <<r.C.info, s.info>> ELSE <<>>, r.out, Ev.out>>
 
-Next == AnyStep \/ ScrubStep
+Next == AnyStep \/ RehashStep \/ ScrubStep
 Spec == Init /\ [][Next]_vars
 
 Conforms == diag = <<>>
